@@ -481,13 +481,17 @@ def _invalid_value(spec, cur):
     k = spec[0]
     if k == "int":
         lo, hi = V.int_range(spec)
-        return st.sampled_from([lo - 1, hi + 1, lo - 257, hi + (1 << 70), -(1 << 200)])
+        # out of range; and, for signed fields, negative values: fine for the field itself, refused where it serves as a length or count
+        return st.sampled_from([lo - 1, hi + 1, lo - 257, hi + (1 << 70), -(1 << 200)] + ([-1, -2, lo] if lo < 0 else []))
     if k == "varint":
         return st.sampled_from([-1, -128, -(1 << 64)])
     if k == "float":
         return st.sampled_from([1e39, -1e39, 1e308 * 10]) if spec[1] < 8 else st.just(cur)
     if k == "bytes":
-        return st.sampled_from([cur + b"x", cur[:-1] if cur else b"xx", cur + b"\x00\x00"])
+        # wrong lengths; and the documented alternative spellings of a value: a bytearray, an integer (written big-endian in the
+        # field's width - when it fits)
+        alts = [cur + b"x", cur[:-1] if cur else b"xx", cur + b"\x00\x00", int.from_bytes(cur, "big"), int.from_bytes(cur, "big") + 1, 1 << (8 * len(cur)), -1]
+        return st.sampled_from(alts)
     if k == "pstr":
         return st.sampled_from([str(cur) + "x" * 40, "€" * 30]) if spec[2] != "ascii" else st.sampled_from(["€", str(cur) + "x" * 40])
     if k in ("pascal", "cstr"):
